@@ -245,7 +245,7 @@ def check_cli(n, u, lo, hi):
             bad('cli-failed', program, 'exit status %r %s' % (st, cli.describe(exc)))
             continue
         try:
-            got = codecs.decode_brackets(open(dest, encoding='utf-8').read())
+            got = codecs.decode_brackets(codecs.read_out(dest))
         except codecs.DecodeError as e:
             bad('undecodable', program, str(e))
             continue
